@@ -261,3 +261,281 @@ func PoolContents() [][]interface{} {
 	}
 	return out
 }
+
+// ---------------------------------------------------------------------------
+// The rest of package sync's API, so that any change to the library that
+// starts using another primitive still builds under the shim. Same rule:
+// outside exploration delegate to the real primitive; under exploration every
+// operation is a scheduling point and a happens-before edge.
+
+type Locker = sync.Locker
+
+func (m *Mutex) TryLock() bool {
+	if !Hooks.Active {
+		return m.real.TryLock()
+	}
+	Hooks.Point("TryLock", unsafe.Pointer(m))
+	if m.locked {
+		return false
+	}
+	m.locked = true
+	Hooks.Acquire(unsafe.Pointer(m))
+	return true
+}
+
+func (m *RWMutex) TryLock() bool {
+	if !Hooks.Active {
+		return m.real.TryLock()
+	}
+	Hooks.Point("TryLock", unsafe.Pointer(m))
+	if m.writer || m.readers > 0 {
+		return false
+	}
+	m.writer = true
+	Hooks.Acquire(unsafe.Pointer(m))
+	return true
+}
+
+func (m *RWMutex) TryRLock() bool {
+	if !Hooks.Active {
+		return m.real.TryRLock()
+	}
+	Hooks.Point("TryRLock", unsafe.Pointer(m))
+	if m.writer {
+		return false
+	}
+	m.readers++
+	Hooks.Acquire(unsafe.Pointer(m))
+	return true
+}
+
+type rlocker RWMutex
+
+func (r *rlocker) Lock()   { (*RWMutex)(r).RLock() }
+func (r *rlocker) Unlock() { (*RWMutex)(r).RUnlock() }
+
+func (m *RWMutex) RLocker() Locker { return (*rlocker)(m) }
+
+// WaitGroup.
+type WaitGroup struct {
+	real sync.WaitGroup
+	n    int
+}
+
+func (w *WaitGroup) Add(delta int) {
+	if !Hooks.Active {
+		w.real.Add(delta)
+		return
+	}
+	Hooks.Point("WaitGroup.Add", unsafe.Pointer(w))
+	Hooks.Release(unsafe.Pointer(w))
+	w.n += delta
+	if w.n < 0 {
+		panic("vsync: negative WaitGroup counter")
+	}
+}
+
+func (w *WaitGroup) Done() { w.Add(-1) }
+
+func (w *WaitGroup) Wait() {
+	if !Hooks.Active {
+		w.real.Wait()
+		return
+	}
+	Hooks.Point("WaitGroup.Wait", unsafe.Pointer(w))
+	for w.n > 0 {
+		Hooks.Block(func() bool { return w.n == 0 }, "WaitGroup.Wait")
+	}
+	Hooks.Acquire(unsafe.Pointer(w))
+}
+
+// Cond.
+type Cond struct {
+	L       Locker
+	real    *sync.Cond
+	waiters []*bool
+}
+
+func NewCond(l Locker) *Cond { return &Cond{L: l, real: sync.NewCond(l)} }
+
+func (c *Cond) Wait() {
+	if !Hooks.Active {
+		c.real.Wait()
+		return
+	}
+	woken := new(bool)
+	c.waiters = append(c.waiters, woken)
+	c.L.Unlock()
+	for !*woken {
+		Hooks.Block(func() bool { return *woken }, "Cond.Wait")
+	}
+	Hooks.Acquire(unsafe.Pointer(c))
+	c.L.Lock()
+}
+
+func (c *Cond) Signal() {
+	if !Hooks.Active {
+		c.real.Signal()
+		return
+	}
+	Hooks.Point("Cond.Signal", unsafe.Pointer(c))
+	Hooks.Release(unsafe.Pointer(c))
+	if len(c.waiters) > 0 {
+		*c.waiters[0] = true
+		c.waiters = c.waiters[1:]
+	}
+}
+
+func (c *Cond) Broadcast() {
+	if !Hooks.Active {
+		c.real.Broadcast()
+		return
+	}
+	Hooks.Point("Cond.Broadcast", unsafe.Pointer(c))
+	Hooks.Release(unsafe.Pointer(c))
+	for _, w := range c.waiters {
+		*w = true
+	}
+	c.waiters = nil
+}
+
+// Map: a mutex-protected map; every operation is one atomic step.
+type Map struct {
+	mu   sync.Mutex
+	m    map[interface{}]interface{}
+	keys []interface{} // insertion order, so that Range is deterministic
+}
+
+func (m *Map) step(op string) func() {
+	if Hooks.Active {
+		Hooks.Point("Map."+op, unsafe.Pointer(m))
+		Hooks.Acquire(unsafe.Pointer(m))
+		return func() { Hooks.Release(unsafe.Pointer(m)) }
+	}
+	m.mu.Lock()
+	return m.mu.Unlock
+}
+
+func (m *Map) Load(key interface{}) (value interface{}, ok bool) {
+	defer m.step("Load")()
+	value, ok = m.m[key]
+	return
+}
+
+func (m *Map) store(key, value interface{}) {
+	if m.m == nil {
+		m.m = map[interface{}]interface{}{}
+	}
+	if _, ok := m.m[key]; !ok {
+		m.keys = append(m.keys, key)
+	}
+	m.m[key] = value
+}
+
+func (m *Map) del(key interface{}) {
+	if _, ok := m.m[key]; ok {
+		delete(m.m, key)
+		for i, k := range m.keys {
+			if k == key {
+				m.keys = append(m.keys[:i:i], m.keys[i+1:]...)
+				break
+			}
+		}
+	}
+}
+
+func (m *Map) Store(key, value interface{}) {
+	defer m.step("Store")()
+	m.store(key, value)
+}
+
+func (m *Map) LoadOrStore(key, value interface{}) (actual interface{}, loaded bool) {
+	defer m.step("LoadOrStore")()
+	if v, ok := m.m[key]; ok {
+		return v, true
+	}
+	m.store(key, value)
+	return value, false
+}
+
+func (m *Map) LoadAndDelete(key interface{}) (value interface{}, loaded bool) {
+	defer m.step("LoadAndDelete")()
+	value, loaded = m.m[key]
+	m.del(key)
+	return
+}
+
+func (m *Map) Delete(key interface{}) {
+	defer m.step("Delete")()
+	m.del(key)
+}
+
+func (m *Map) Swap(key, value interface{}) (previous interface{}, loaded bool) {
+	defer m.step("Swap")()
+	previous, loaded = m.m[key]
+	m.store(key, value)
+	return
+}
+
+func (m *Map) CompareAndSwap(key, old, new interface{}) bool {
+	defer m.step("CompareAndSwap")()
+	if v, ok := m.m[key]; ok && v == old {
+		m.store(key, new)
+		return true
+	}
+	return false
+}
+
+func (m *Map) CompareAndDelete(key, old interface{}) bool {
+	defer m.step("CompareAndDelete")()
+	if v, ok := m.m[key]; ok && v == old {
+		m.del(key)
+		return true
+	}
+	return false
+}
+
+func (m *Map) Range(f func(key, value interface{}) bool) {
+	end := m.step("Range")
+	keys := append([]interface{}(nil), m.keys...)
+	vals := make([]interface{}, len(keys))
+	for i, k := range keys {
+		vals[i] = m.m[k]
+	}
+	end()
+	for i, k := range keys {
+		if !f(k, vals[i]) {
+			break
+		}
+	}
+}
+
+func (m *Map) Clear() {
+	defer m.step("Clear")()
+	m.m = nil
+	m.keys = nil
+}
+
+func OnceFunc(f func()) func() {
+	var once Once
+	return func() { once.Do(f) }
+}
+
+func OnceValue[T any](f func() T) func() T {
+	var once Once
+	var v T
+	return func() T {
+		once.Do(func() { v = f() })
+		return v
+	}
+}
+
+func OnceValues[T1, T2 any](f func() (T1, T2)) func() (T1, T2) {
+	var once Once
+	var v1 T1
+	var v2 T2
+	return func() (T1, T2) {
+		once.Do(func() { v1, v2 = f() })
+		return v1, v2
+	}
+}
